@@ -33,11 +33,24 @@ def _fmt(name):
     return format_registry.make_controldir(name)
 
 
+_FALLBACK = {"path": None}
+
+
+def _open(path):
+    """Repository.open plus the case's fallback repository (stacked targets get it on every open, as a branch would do)."""
+    from breezy.repository import Repository
+
+    r = Repository.open(path)
+    if _FALLBACK["path"] and not path.startswith(_FALLBACK["path"]):
+        r.add_fallback_repository(Repository.open(_FALLBACK["path"]))
+    return r
+
+
 def _visible(path):
     """What fresh objects see + the bytes that define visibility."""
     from breezy.repository import Repository
 
-    repo = Repository.open(path)
+    repo = Repository.open(path)  # own content only: what the write group may or may not have changed
     snap = observe.snap_repo(repo, testaments=False)
     rd = os.path.join(path, ".bzr", "repository")
     with open(os.path.join(rd, "pack-names"), "rb") as f:
@@ -91,7 +104,7 @@ def _insert(target, source, tip, have, drop, seen, is_resume=False):
 def _twin_commit(path, source, tip, have):
     from breezy.repository import Repository
 
-    t = Repository.open(path)
+    t = _open(path)
     with t.lock_write():
         t.start_write_group()
         try:
@@ -129,7 +142,17 @@ def case(ctx):
     tpath = os.path.join(root, "t")
     ControlDir.create(tpath, format=_fmt(fmt)).create_repository()
     have = set()
-    if rng.random() < 0.5:
+    _FALLBACK["path"] = None
+    stacked = fmt == "2a" and rng.random() < 0.3
+    if stacked:
+        # target stacked on a repository that already holds everything: the stream brings revisions whose
+        # inventories / texts also exist in the fallback - the stacked repository must still be complete on its own
+        fb = os.path.join(root, "fallback")
+        ControlDir.create(fb, format=_fmt(fmt)).create_repository()
+        Repository.open(fb).fetch(source, revision_id=tip)
+        _FALLBACK["path"] = fb
+        ctx.count("stacked_targets")
+    elif rng.random() < 0.5:
         pre = rng.choice(anc[1:])
         t0 = Repository.open(tpath)
         t0.fetch(source, revision_id=pre)
@@ -142,7 +165,7 @@ def case(ctx):
 
     # what to drop
     drop_class = rng.choice(["none", "none", "none", "text", "inventory", "text"])
-    ending = rng.choice(["abort", "commit", "suspend-resume-commit", "suspend-resume-abort", "suspend-resume-suspend-resume-commit"]) if drop_class == "none" else \
+    ending = rng.choice(["abort", "commit", "suspend-resume-commit", "suspend-resume-abort", "suspend-resume-suspend-resume-commit", "abortfaulted", "abortfaulted"]) if drop_class == "none" else \
         rng.choice(["commit", "suspend-resume-commit", "suspend-resume-complete-commit"])
     if drop_class == "inventory" and "complete" in ending and fmt == "2a":
         ending = "suspend-resume-commit"  # (a CHK inventory cannot be completed by re-sending one record)
@@ -150,7 +173,7 @@ def case(ctx):
     seen = {}
     scratch = os.path.join(root, "dry")
     shutil.copytree(tpath, scratch)
-    d = Repository.open(scratch)
+    d = _open(scratch)
     with d.lock_write():
         d.start_write_group()
         try:
@@ -183,7 +206,7 @@ def case(ctx):
     ctx.hist("ending:%s/%s" % (ending, drop_class))
 
     steps = ending.split("-")
-    t = Repository.open(tpath)
+    t = _open(tpath)
     t.lock_write()
     t.start_write_group()
     locked = True
@@ -205,7 +228,37 @@ def case(ctx):
         while i < len(steps):
             st = steps[i]
             i += 1
-            if st == "abort":
+            if st == "abortfaulted":
+                # the partial pack vanishes from upload/ (tmp cleaner, full disk ...) so discarding it fails; the same
+                # repository object must afterwards show nothing of the aborted group and accept a new write group
+                up = os.path.join(tpath, ".bzr", "repository", "upload")
+                for f in os.listdir(up):
+                    if os.path.isfile(os.path.join(up, f)):
+                        os.unlink(os.path.join(up, f))
+                try:
+                    t.abort_write_group()
+                    ctx.hist("abortfaulted:abort-returned")
+                except Exception as e:
+                    ctx.hist("abortfaulted:abort-raised:" + type(e).__name__)
+                ctx.count("abort_faulted")
+                if t.is_in_write_group():
+                    ctx.fail("abort-faulted:still-in-write-group", "after a failing abort_write_group the repository still reports an open write group", detail)
+                else:
+                    own = set(before["keys"].get("texts") or [])
+                    try:
+                        now_keys = set(t.texts.keys())
+                        extra = now_keys - own - (set(Repository.open(_FALLBACK["path"]).texts.keys()) if _FALLBACK["path"] and False else set())
+                        if extra and not _FALLBACK["path"]:
+                            ctx.fail("abort-faulted:aborted-data-visible", "texts of the aborted group are visible in the same repository object: %r" % (sorted(extra)[:3],), detail)
+                        t.start_write_group()
+                        _insert(t, source, tip, have, set(), {})
+                        t.commit_write_group()
+                        outcome = "committed"
+                        complete_after_fault = True
+                    except Exception as e:
+                        ctx.fail("abort-faulted:next-write-group-broken:%s" % type(e).__name__, "after a failing abort the same object cannot run the next write group: %r" % (e,), detail)
+                        outcome = "aborted"
+            elif st == "abort":
                 t.abort_write_group()
                 outcome = "aborted"
             elif st == "suspend":
@@ -219,7 +272,7 @@ def case(ctx):
                 if now != before:
                     ctx.fail("suspended-group-visible", "repository differs while the write group is suspended: %r" % ([k for k in before if before[k] != now[k]],), detail)
             elif st == "resume":
-                t = Repository.open(tpath)  # a different process resumes
+                t = _open(tpath)  # a different process resumes
                 t.lock_write()
                 locked = True
                 t.resume_write_group(tokens)
@@ -246,12 +299,12 @@ def case(ctx):
             t.unlock()
     after = _visible(tpath)
     complete = drop_class == "none" or "complete" in steps
-    if outcome == "aborted":
+    if outcome == "aborted" and "abortfaulted" not in steps:
         ctx.count("abort_unchanged")
         if after != before:
             ctx.fail("abort-changed-repository", "after abort differs in %r" % ([k for k in before if before[k] != after[k]],), detail)
         up = _upload(tpath)
-        if up != up_before:
+        if up != up_before and "abortfaulted" not in steps:
             ctx.fail("abort-left-upload-files", "upload/ after abort: %r" % (up[:4],), detail)
     elif outcome == "refused":
         ctx.check(not complete, "complete-group-refused", "a complete write group was refused", detail)
@@ -263,15 +316,15 @@ def case(ctx):
             ctx.fail("incomplete-group-committed:%s:%s" % (drop_class, fmt), "a write group lacking %r of its new revisions was committed" % (sorted(drop)[:2],), detail)
         else:
             tw = _twin_commit(twin, source, tip, have)
-            a = observe.snap_repo(Repository.open(tpath))
-            b = observe.snap_repo(Repository.open(twin))
+            a = observe.snap_repo(_open(tpath))
+            b = observe.snap_repo(_open(twin))
             ctx.count("resume_commit_equals_twin" if "resume" in steps else "commit_equals_twin")
             if a != b:
                 diff = [k for k in a["keys"] if a["keys"][k] != b["keys"].get(k)] + (["revisions"] if a["revisions"] != b["revisions"] else [])
                 ctx.fail("commit-differs-from-direct-commit", "after %s the repository differs from a directly committed twin in %r" % (ending, diff), detail)
-            probs = observe.check_repo(Repository.open(tpath))
+            probs = observe.check_repo(_open(tpath))
             ctx.check(not probs, "check-unclean-after-commit", repr(probs), detail)
-            r = Repository.open(tpath)
+            r = _open(tpath)
             with r.lock_read():
                 ctx.check(want <= set(r.all_revision_ids()), "streamed-revisions-missing-after-commit", "missing %r" % (sorted(want - set(r.all_revision_ids()))[:3],), detail)
     ctx.note((fmt, ending, drop_class, len(want), len(have) > 0), nontrivial=len(want) >= 3, sample=dict(detail, outcome=outcome))
